@@ -13,6 +13,7 @@ EXPLANATION = (
     "(S3) whole-lot conversion is from the truncation-toward-zero family and applies only under `not fractional`; (S4) every value "
     "reaching Trade(quantity=) is non-zero on every path (NZ dataflow: allocation entries are non-zero, truncation may produce zero and "
     "must be followed by a dominating zero-skip); (S5) _Allocation drops Cash and zero entries and Trade.__init__ rejects both."
+    " No return is reachable without entering the trade loop unless guarded by an empty imbalance (S1.no-skip-before-the-loop); the trades executed are the list built for this request (C13.S4 clauses) and a continuous action is the allocation as given (C17.S4)."
 )
 DECIDED = ["S1 trade iff imbalance non-zero and (|w| >= threshold or untargeted)", "S2 liquidations always go through", "S3 whole lots by truncation toward zero",
            "S4 sub-lot imbalances skipped, never a zero-sized trade", "S5 cash never traded, zero entries never appear"]
@@ -119,18 +120,8 @@ def run(ck, an, tier):
             ck.check(not msgs, "GUARD", clause, subj, fa.loc(loop), what[clause], "; ".join(msgs[:3]), construct="trade loop of make_trades", witness=msgs[:8])
     # nothing outside the loop decides for all items at once: a return that can be reached without passing the trade loop is accepted
     # only when it is guarded by the imbalance being empty (then the loop would have produced nothing anyway)
-    ln = fa.node_of(loop)
-    if ln is not None and not fa.cfg.every_path_from_passes(fa.cfg.entry.id, {ln.id}):
-        from sa.lib import returns_in as _rets
-        early = []
-        for r_ in _rets(fa):
-            rn = fa.node_of(r_)
-            if rn is None or any(p_ is loop for p_ in parents(r_)) or fa.cfg.every_path_from_passes(fa.cfg.entry.id, {ln.id}, to=rn.id):
-                continue
-            gs = fa.path_guards(r_)
-            fine = bool(gs) and all(g_[0] == "truthy" and g_[1] in (imb, f"len({imb})") for g_ in gs)
-            if not fine:
-                early.append(f"line {r_.lineno}: `{stmt_text(r_)[:50]}` under {[cmp_key(g_)[:90] for g_ in gs][:3]}")
+    if True:
+        early = [f"line {r_.lineno}: `{stmt_text(r_)[:50]}` under {gs_[:3]}" for r_, gs_, fine_ in shortcut_returns(fa, loop, extra_empty=[imb]) if not fine_]
         ck.check(not early, "GUARD", "S1.no-skip-before-the-loop", subj, fa.loc(loop), "make_trades reaches the per-item decision for every rebalance (no shortcut return decides for all items at once, "
                  "other than for an empty imbalance)", "make_trades can return without entering the trade loop: " + "; ".join(early[:3]) +
                  " - held-but-untargeted contracts and above-threshold items are then not traded", construct="trade loop of make_trades", witness=early[:8])
@@ -255,6 +246,8 @@ def subclass_ctor_plumbing(ck, an, prefix):
                 if 1 + i < len(base.params):
                     bound[base.params[1 + i]] = ast.unparse(a)
             for k in x.keywords:
+                if k.arg is None:
+                    continue        # **mapping: judged where the mapping is built (the normaliser spreads literal ones)
                 bound[k.arg] = ast.unparse(k.value)
             bad = {p: v for p, v in bound.items() if v != p}
             ck.check(not bad, "ARGFLOW", f"{prefix}.space-ctor-plumbing", fa.f.short, fa.loc(x), f"{c.name} forwards {sorted(bound)} to PortfolioSpace.__init__ under the same names",
